@@ -27,18 +27,28 @@ func replaySpeciation(arrivals []*genetics.Organism, thr, exc, dis, mut float64,
 // exact = every distance is a sum of a few dyadic rationals (integer-valued coefficients, no mutation term), hence
 // computed without rounding in any order: decisions are then judged without tolerance, also exactly at the threshold.
 func replaySpeciationEvents(arrivals []*genetics.Organism, removedBefore map[int][]*genetics.Species, exact bool, thr, exc, dis, mut float64, rec *Rec) error {
-	type modelSpecies struct {
-		sp   *genetics.Species
-		rep  []innovMut
-		gone bool
-	}
+	return replaySpeciationFrom(nil, math.MinInt64, arrivals, removedBefore, exact, thr, exc, dis, mut, rec)
+}
+
+type modelSpecies struct {
+	sp   *genetics.Species
+	rep  []innovMut
+	gone bool
+}
+
+// replaySpeciationFrom: initial lists the species that exist before the first arrival (with the genes of their
+// representatives), lastIssued the largest species id issued so far.
+func replaySpeciationFrom(initial []modelSpecies, lastIssued int, arrivals []*genetics.Organism, removedBefore map[int][]*genetics.Species, exact bool, thr, exc, dis, mut float64, rec *Rec) error {
 	distTol := distTol
 	if exact {
 		distTol = func(float64) float64 { return 0 }
 	}
-	var species []modelSpecies
+	species := append([]modelSpecies(nil), initial...)
 	known := map[*genetics.Species]int{}
-	lastId := math.MinInt64
+	for k, ms := range species {
+		known[ms.sp] = k
+	}
+	lastId := lastIssued
 	for i, o := range arrivals {
 		for _, dead := range removedBefore[i] {
 			if k, ok := known[dead]; ok {
@@ -337,6 +347,24 @@ func CheckC08Epochs(sc Scenario, rec *Rec) error {
 				} else {
 					rec.Class("member of a new species")
 				}
+				// closest among the compatible ones: every species that existed before the turnover and still exists was a
+				// candidate when this organism arrived (species objects are only ever removed), with its old champion as
+				// representative; none of them may be robustly compatible and robustly closer than the species chosen
+				genes := innovMutsOf(o.Genotype)
+				for _, other := range pop.Species {
+					otherRep, old := reps[other]
+					if !old || other == sp {
+						continue
+					}
+					dT := RefCompat(genes, otherRep, opts.ExcessCoeff, opts.DisjointCoeff, opts.MutdiffCoeff)
+					if dT < thr-distTol(dT) && dT < d-2*distTol(d) {
+						return fmt.Errorf("organism %d was put into species %d at distance %v although the representative of species %d, which existed throughout the turnover, is closer (%v) and within the threshold %v",
+							i, sp.Id, d, other.Id, dT, thr)
+					}
+					if dT < thr-distTol(dT) {
+						rec.Class("another pre-existing species was compatible too")
+					}
+				}
 			}
 			if len(pop.Species) > 1 {
 				rec.NonTrivial(hashOf(e, len(pop.Species), len(pop.Organisms)))
@@ -346,6 +374,90 @@ func CheckC08Epochs(sc Scenario, rec *Rec) error {
 	}, rec)
 }
 
+/* (d) one turnover taken apart through the phase hooks: after the executor's own preparation phase the living species and
+   their representatives are known, the babies are produced species by species exactly as the sequential executor does and
+   speciated in that order; the complete rule is then replayed with the reference distance. This is where species with a zero
+   quota (delta coding with three or more species) are still alive while the babies arrive. */
+
+func CheckC08Stepwise(sc Scenario, rec *Rec) error {
+	opts := sc.Opts.Build()
+	pop, err := buildPopulation(sc, opts)
+	if err == errSkipScenario {
+		rec.Class("skipped: constructor outside the domain (gene-less random genome / failing turnover before the checkpoint)")
+		return nil
+	}
+	if err != nil {
+		return err
+	}
+	ctx := opts.NeatContext()
+	exec := &genetics.SequentialPopulationEpochExecutor{}
+	assign := func(e int) {
+		n := len(pop.Organisms)
+		for i, o := range pop.Organisms {
+			o.Fitness = fitnessOf(sc.Fit, e, i, n, o.Genotype)
+		}
+	}
+	for e := 0; e < sc.Epochs-1; e++ {
+		assign(e)
+		if err := exec.NextEpoch(ctx, e, pop); err != nil {
+			rec.Class("history ended by a failing turnover (outside this property, see C02)")
+			return nil
+		}
+	}
+	gen := sc.Epochs - 1
+	assign(gen)
+	if err := exec.VerifPrepare(ctx, gen, pop); err != nil {
+		rec.Class("history ended by a failing turnover (outside this property, see C02)")
+		return nil
+	}
+	var initial []modelSpecies
+	zeroQuota := 0
+	for _, sp := range pop.Species {
+		if len(sp.Organisms) == 0 {
+			return fmt.Errorf("harness: species %d has no organisms after the preparation phase", sp.Id)
+		}
+		initial = append(initial, modelSpecies{sp: sp, rep: innovMutsOf(sp.Organisms[0].Genotype)})
+		if sp.ExpectedOffspring == 0 {
+			zeroQuota++
+		}
+	}
+	lastIssued := pop.LastSpecies
+	sorted := exec.VerifSortedSpecies()
+	var babies []*genetics.Organism
+	for _, sp := range append([]*genetics.Species(nil), pop.Species...) {
+		b, err := sp.VerifReproduce(ctx, gen, pop, sorted)
+		if err != nil {
+			rec.Class("history ended by a failing turnover (outside this property, see C02)")
+			return nil
+		}
+		babies = append(babies, b...)
+	}
+	if len(babies) == 0 {
+		return nil
+	}
+	if err := pop.VerifSpeciate(ctx, babies); err != nil {
+		return fmt.Errorf("speciate returned error: %v", err)
+	}
+	rec.Class("constructor:" + sc.Ctor)
+	if len(initial) >= 2 {
+		rec.Class("babies arrive while several species are alive")
+	}
+	if zeroQuota > 0 {
+		rec.Class("a species with a zero quota is alive while the babies arrive")
+	}
+	return replaySpeciationFrom(initial, lastIssued, babies, nil, false, opts.CompatThreshold, opts.ExcessCoeff, opts.DisjointCoeff, opts.MutdiffCoeff, rec)
+}
+
+func TestC08Stepwise(t *testing.T) {
+	gen := genScenario(ScenarioCfg{MaxEpochs: pick(20, 40), FitnessKinds: []string{"distinct", "stagnating", "stagnating", "uniform", "heavy"}, Parallel: 0, MinPop: 6})
+	runProp(t, "C08", "stepwise", 300, 6000, rapid.Map(gen, func(sc Scenario) Scenario {
+		if sc.Opts.DropOffAge > 6 {
+			sc.Opts.DropOffAge = 1 + sc.Opts.DropOffAge%6 // population-level stagnation (delta coding) within the history
+		}
+		return sc
+	}), CheckC08Stepwise)
+}
+
 func TestC08Epochs(t *testing.T) {
 	runProp(t, "C08", "epochs", 300, 6000, genScenario(ScenarioCfg{MaxEpochs: pick(12, 30), FitnessKinds: []string{"distinct", "distinct", "stagnating"}, Parallel: 1}), CheckC08Epochs)
 }
@@ -353,4 +465,5 @@ func TestC08Epochs(t *testing.T) {
 func init() {
 	registerReplay("C08", "direct", CheckC08Direct)
 	registerReplay("C08", "epochs", CheckC08Epochs)
+	registerReplay("C08", "stepwise", CheckC08Stepwise)
 }
